@@ -94,13 +94,21 @@ impl Outcome {
     }
     pub fn violation(&mut self, signature: impl Into<String>, detail: impl Into<String>, replay: J) {
         let signature = signature.into();
+        let detail: String = detail.into();
+        // a panic raised in the harness's own sources (paths relative to the harness crate;
+        // the subject's are absolute) is a harness error: inconclusive, never a violation
+        if signature.starts_with("panic") && detail.contains(" @ src/") {
+            self.count("harness_panics", 1);
+            self.inconclusive(format!("harness panic (not the subject): {}", detail.chars().take(300).collect::<String>()));
+            return;
+        }
         // keep the first few per signature, count the rest
         let same = self.violations.iter().filter(|v| v.signature == signature).count();
         self.count(&format!("violations[{}]", signature), 1);
         if same < 3 && self.violations.len() < MAX_VIOLATIONS_KEPT {
             self.violations.push(Violation {
                 signature,
-                detail: detail.into(),
+                detail,
                 replay,
             });
         }
